@@ -4,6 +4,8 @@
 package main
 
 import (
+	"sync/atomic"
+	"time"
 	"sync"
 	"bufio"
 	"encoding/hex"
@@ -101,6 +103,9 @@ func (c *Ctx) Case(class, line, implAnswer string) {
 	fmt.Fprintf(c.cases, "%s %s\n", id, line)
 	fmt.Fprintf(c.impl, "%s %s\n", id, implAnswer)
 	c.classes[class]++
+	if atomic.LoadInt32(&abortGen) == 1 && atomic.CompareAndSwapInt32(&abortGen, 1, 2) {
+		panic(genAbort{})
+	}
 	if _, ok := c.samples[class]; !ok {
 		s := id + " " + line + " => " + implAnswer
 		if len(s) > 400 {
@@ -141,6 +146,28 @@ func guard(f func() string) (res string) {
 	return f()
 }
 
+// guardT is guard with a deadline: f runs in a goroutine of its own; when it has not returned after d the answer is
+// "no-return" and the goroutine is left behind (a call that never terminates cannot be stopped from outside). Only for
+// calls that do not depend on the OS thread they run on.
+func guardT(d time.Duration, f func() string) string {
+	done := make(chan string, 1)
+	go func() { done <- guard(f) }()
+	select {
+	case r := <-done:
+		return r
+	case <-time.After(d):
+		if atomic.AddInt32(&noReturns, 1) >= 3 {
+			atomic.StoreInt32(&abortGen, 1) // three calls that never came back: the generator stops at its next case
+		}
+		return "no-return"
+	}
+}
+
+var noReturns, abortGen int32
+
+// genAbort is the panic value with which Case ends a generator run after several calls that did not return
+type genAbort struct{}
+
 var generators = map[string]func(*Ctx){}
 
 func main() {
@@ -167,7 +194,16 @@ func main() {
 		cases: bufio.NewWriterSize(cf, 1<<20), impl: bufio.NewWriterSize(inf, 1<<20),
 		classes: map[string]int{}, samples: map[string]string{}, seen: map[string]struct{}{},
 		extra: map[string]any{}}
-	gen(c)
+	func() {
+		defer func() {
+			if r := recover(); r != nil {
+				if _, ok := r.(genAbort); !ok {
+					panic(r)
+				}
+			}
+		}()
+		gen(c)
+	}()
 	c.Case("held-outputs", fmt.Sprintf("expect ok #held %d", len(heldOuts)), heldVerdict())
 	c.Case("held-keys", fmt.Sprintf("expect ok #heldkeys %d", len(heldKeys)), heldKeysVerdict())
 	c.Case("decoder-refusals", "expect ok #refusals", refusalVerdict())
